@@ -1,18 +1,27 @@
 import Aiorpcx.Common.Hex
 import Aiorpcx.C01.Model
+import Aiorpcx.C01.Sess
 import Aiorpcx.Facts.C01
 /-! Line-protocol driver for the C01 model: one history per line.
 
-    in : `<variant>:<proto> <op> <op> ...`
-         variant `R` (repaired, F07 applied) | `P` (pinned); the F4/F5 guards and the id counter
-         come from the generated facts.  proto `v1|v2|loose|auto`.
+    in : `<variant>:<proto>[:<start>] <op> <op> ...`
+         variant `R` (repaired, F07 applied) | `P` (pinned); the F4/F5 guards and the step of the
+         id counter come from the generated facts; `<start>` is the first id of the history as the
+         harness decoded it from the bytes the connection handed out (the facts' value if absent).
+         proto `v1|v2|loose|auto`.
          ops: `S1|S0` send_request ok/raising · `B<r|n>*:<0|1>` send_batch · `R<d>:<resp>` single
          response · `L<d>:<resp>,<resp>..` response batch · `O<d>` other message · `C` cancel all ·
          `X<t>` external cancel of ticket t.   `<d>` = `1|2|L` (what detect_protocol answers).
          resp = `<id>/<wf>/<res>`; id = `i<int>` `h<int>` (float n/2) `bT` `bF` `s<cp>.<cp>..` `n`
          `u<tag>` `-` (absent); wf = `0|1`; res = `v<nat>` | `e<nat>`.
     out: one token per op (`s<ids>/<ticket>` `d<tickets>` `!P` `!T` `c<tickets>`), then
-         `#<pending> <fut>,<fut>..` with fut = `p` `r<v>` `e<v>` `P` `c` `b[<res>;..]`. -/
+         `#<pending> <fut>,<fut>..` with fut = `p` `r<v>` `e<v>` `P` `c` `b[<res>;..]`.
+
+    Session histories (`Sess.lean`): variant `W`; the same op tokens mean: `S`/`B` a caller makes
+    the call, `X<t>` a caller awaiting its response gives up, `C` the connection is lost,
+    `R`/`L`/`O` a message from the peer; in addition `P` send buffer full, `U` drained,
+    `D<q>` the q-th parked caller gives up.  out: `#<pending> <futs> w<ids>;<ids>;..` - the ids of
+    the messages on the wire, in wire order. -/
 open Aiorpcx Aiorpcx.C01
 
 def parseProto (s : String) : Option Proto :=
@@ -113,26 +122,75 @@ def showFut : Fut Nat → String
   | .cancelled => "c"
   | .batch rs => "b[" ++ String.intercalate ";" (rs.map showRes) ++ "]"
 
+/-- the variant the generated facts describe (`rejectBool = false`: the tree before F07) -/
+def factsVariant (rejectBool : Bool) : Variant :=
+  { rejectBool := rejectBool, lookupGuard := Facts.C01.lookupGuarded,
+    sortGuard := Facts.C01.sortGuarded, failDrawsSingle := Facts.C01.failDrawsSingle,
+    failDrawsBatch := Facts.C01.failDrawsBatch }
+
 def handle (line : String) : String :=
   match (line.splitOn " ").filter (· ≠ "") with
   | hd :: ops =>
-    match hd.splitOn ":" with
-    | [v, p] =>
+    let parts := hd.splitOn ":"
+    -- the first id of the history, as the harness read it from the wire (default: the facts')
+    let start? : Option Nat :=
+      match parts with
+      | [_, _] => some Facts.C01.idStart
+      | [_, _, s] => s.toNat?
+      | _ => none
+    match parts.take 2, start? with
+    | [v, p], some start =>
       let vr? : Option Variant :=
-        if v == "R" then some (repaired Facts.C01.lookupGuarded Facts.C01.sortGuarded)
-        else if v == "P" then some { pinned with lookupGuard := Facts.C01.lookupGuarded,
-                                                 sortGuard := Facts.C01.sortGuarded }
+        if v == "R" then some (factsVariant true)
+        else if v == "P" then some (factsVariant false)
         else none
       let proto? : Option (Option Proto) :=
         if p == "auto" then some none else (parseProto p).map some
       match vr?, proto?, ops.mapM parseOp with
       | some vr, some proto, some ops =>
-          let r := run vr Facts.C01.idStep (Conn.init proto Facts.C01.idStart) ops
+          let r := run vr Facts.C01.idStep (Conn.init proto start) ops
           String.intercalate " " (r.2.map showObs ++
             ["#" ++ toString r.1.pendingCount,
              if r.1.futs.isEmpty then "." else String.intercalate "," (r.1.futs.map showFut)])
       | _, _, _ => "bad-op"
+    | _, _ => "bad-op"
+  | _ => "bad-op"
+
+def parseSOp (s : String) : Option (SOp Nat) :=
+  let rest := (s.drop 1).toString
+  match s.front with
+  | 'P' => if rest == "" then some .pause else none
+  | 'U' => if rest == "" then some .resume else none
+  | 'D' => rest.toNat?.map .dropParked
+  | _ =>
+    match parseOp s with
+    | some (.sendRequest ok) => some (.call none ok)
+    | some (.sendBatch ms ok) => some (.call (some ms) ok)
+    | some (.extCancel t) => some (.giveUp t)
+    | some .cancelAll => some .lost
+    | some op => some (.recv op)
+    | none => none
+
+def handleSess (line : String) : String :=
+  match (line.splitOn " ").filter (· ≠ "") with
+  | hd :: ops =>
+    match hd.splitOn ":" with
+    | [_, p, st] =>
+      let proto? : Option (Option Proto) :=
+        if p == "auto" then some none else (parseProto p).map some
+      match proto?, st.toNat?, ops.mapM parseSOp with
+      | some proto, some start, some ops =>
+          let vr := factsVariant true
+          let s := srun vr Facts.C01.idStep (Sess.init proto start) ops
+          String.intercalate " "
+            ["#" ++ toString s.conn.pendingCount,
+             if s.conn.futs.isEmpty then "." else String.intercalate "," (s.conn.futs.map showFut),
+             "w" ++ String.intercalate ";" (s.wire.map showNats)]
+      | _, _, _ => "bad-op"
     | _ => "bad-op"
   | _ => "bad-op"
 
-def main : IO Unit := Hex.lineLoop handle
+def dispatch (line : String) : String :=
+  if line.startsWith "W:" then handleSess line else handle line
+
+def main : IO Unit := Hex.lineLoop dispatch
